@@ -2,16 +2,17 @@ package main
 
 func init() {
 	register(&Prop{
-		ID: "C08",
-		Decided: "(1) half-open membership table of TimeSlot.Contains; (2) slot shapes: first slot starts at alignWindowStart(ts,slide) and ends at start+size, NextSlot shifts both ends by slide, and the current interval is only ever replaced by NextSlot() outside initialisation; (3) the watermark handler extracts a slot only under watermark>=End of that slot; (4) take predicate is exactly membership in the fired slot, and a row with ts>=Start+slide (needed by a later interval) is never evicted; (5) writers of SlidingWindow.data/currentSlot are the owner set (closeExpiredWindows is not among them); (6) currentSlot is advanced between loading the slot to fire and releasing the lock for delivery (fires once, in increasing order); (7) each taken row is stamped with the fired slot; (8) late policy of Add; (9) lock discipline of SlidingWindow.",
+		ID:         "C08",
+		Decided:    "(1) half-open membership table of TimeSlot.Contains; (2) slot shapes: first slot starts at alignWindowStart(ts,slide) and ends at start+size, NextSlot shifts both ends by slide, and the current interval is only ever replaced by NextSlot() outside initialisation; (3) the watermark handler extracts a slot only under watermark>=End of that slot; (4) take predicate is exactly membership in the fired slot, and a row with ts>=Start+slide (needed by a later interval) is never evicted; (5) writers of SlidingWindow.data/currentSlot are the owner set (closeExpiredWindows is not among them); (6) currentSlot is advanced between loading the slot to fire and releasing the lock for delivery (fires once, in increasing order); (7) each taken row is stamped with the fired slot; (8) late policy of Add; (9) lock discipline of SlidingWindow.",
 		NotDecided: "that every event appears in all ceil(size/slide) covering intervals under every arrival order (intervals that start before the first event's aligned slot are never created), contents under interleavings, aggregate values.",
-		Run: runC08,
+		Run:        runC08,
 	})
 }
 
 func runC08(a *A) {
 	a.Rule("ordtab/contains", 1, a.ruleContains)
 	a.Rule("shape/slots-tile", 4, func() { a.tumblingSlotShapes("SlidingWindow", "size", "slide") })
+	a.Rule("shape/buffer-arrival-order", 4, func() { a.ruleBufferArrivalOrder(a.Named("window", "SlidingWindow")) })
 	a.Rule("shape/advance-by-one", 4, func() {
 		a.ruleAdvanceByOne(a.Named("window", "SlidingWindow"), map[string]string{
 			"(*window.SlidingWindow).Add":   "aligned slot of the first event",
